@@ -97,7 +97,7 @@ def bshape(a, b):
 def shape_of(sp):
     """(oshape, ishape) of a spec by the documented shape rules (no sigpy)."""
     op = sp["op"]
-    if op in ("Identity", "FFT", "IFFT", "Flip", "Circshift"):
+    if op in ("Identity", "FFT", "IFFT", "Flip", "Circshift", "ToDevice", "AllReduce", "AllReduceAdjoint"):
         return list(sp["shape"]), list(sp["shape"])
     if op in ("Reshape", "Resize"):
         return list(sp["oshape"]), list(sp["ishape"])
@@ -166,13 +166,13 @@ def shape_of(sp):
     if op in ("ConvolveFilter", "ConvolveFilterAdjoint"):
         o = conv_out_shape(sp["data"]["shape"], sp["filt_shape"], sp["mode"], sp["strides"], sp["mc"])
         return (o, list(sp["filt_shape"])) if op == "ConvolveFilter" else (list(sp["filt_shape"]), o)
-    if op == "FiniteDifference":
+    if op in ("FiniteDifference", "Gradient"):
         s = sp["ishape"]
         k = len(s) if sp["axes"] is None else len(sp["axes"])
         return [k] + list(s), list(s)
     if op == "Sense":
         ms = sp["mps"]["shape"]
-        if sp["coord"] is None:
+        if sp["coord"] is None or sp.get("transp_nufft"):
             return list(ms), list(ms[1:])
         return [ms[0]] + list(sp["coord"]["shape"][:-1]), list(ms[1:])
     if op == "ConvSense":
@@ -293,17 +293,38 @@ def build(sp):
         return cls(sp["filt_shape"], A.arr(sp["data"]), mode=sp["mode"], strides=sp["strides"], multi_channel=sp["mc"])
     if op == "FiniteDifference":
         return L.FiniteDifference(sp["ishape"], axes=sp["axes"])
+    if op == "Gradient":
+        # deprecated public alias of FiniteDifference
+        with warnings.catch_warnings():
+            warnings.simplefilter("ignore")
+            return L.Gradient(sp["ishape"], axes=sp["axes"])
+    if op == "ToDevice":
+        return L.ToDevice(sp["shape"], sigpy.cpu_device, sigpy.cpu_device)
+    if op in ("AllReduce", "AllReduceAdjoint"):
+        # single-process communicator (no MPI on this image): the reduction over one rank is the identity
+        return getattr(L, op)(sp["shape"], sigpy.Communicator(), in_place=False)
     if op == "Sense":
         import sigpy.mri
+        kw = {}
+        if sp.get("tseg") is not None:
+            t = sp["tseg"]
+            kw["tseg"] = {"b0": A.arr(t["b0"]), "dt": t["dt"], "lseg": t["lseg"], "n_bins": t["n_bins"]}
+        if sp.get("transp_nufft"):
+            kw["transp_nufft"] = True
+        if sp.get("comm"):
+            kw["comm"] = sigpy.Communicator()
+        if sp.get("ishape") is not None:
+            kw["ishape"] = tuple(sp["ishape"])
         return sigpy.mri.linop.Sense(A.arr(sp["mps"]), coord=None if sp["coord"] is None else A.arr(sp["coord"]),
                                      weights=None if sp["weights"] is None else A.arr(sp["weights"]),
-                                     coil_batch_size=sp["coil_batch_size"])
+                                     coil_batch_size=sp["coil_batch_size"], **kw)
     if op == "ConvSense":
         import sigpy.mri
         return sigpy.mri.linop.ConvSense(sp["img_ker_shape"], A.arr(sp["mps_ker"]),
                                          coord=None if sp["coord"] is None else A.arr(sp["coord"]),
                                          weights=None if sp["weights"] is None else A.arr(sp["weights"]),
-                                         grd_shape=sp["grd_shape"])
+                                         grd_shape=sp["grd_shape"],
+                                         comm=sigpy.Communicator() if sp.get("comm") else None)
     if op == "ConvImage":
         import sigpy.mri
         return sigpy.mri.linop.ConvImage(sp["mps_ker_shape"], A.arr(sp["img_ker"]),
@@ -895,7 +916,13 @@ def g_convfilter(draw, s, dt):
 
 
 def g_findiff(draw, s, dt):
-    return {"op": "FiniteDifference", "ishape": list(s), "axes": _axes(draw, len(s))}
+    return {"op": draw(st.sampled_from(["FiniteDifference", "FiniteDifference", "Gradient"])), "ishape": list(s),
+            "axes": _axes(draw, len(s))}
+
+
+def g_device_comm(draw, s, dt):
+    """ToDevice between CPU devices and AllReduce/AllReduceAdjoint over a single-process communicator."""
+    return {"op": draw(st.sampled_from(["ToDevice", "AllReduce", "AllReduceAdjoint"])), "shape": list(s)}
 
 
 def g_sense(draw, s, dt):
@@ -920,7 +947,27 @@ def g_sense(draw, s, dt):
     if weights is not None and len(weights["shape"]) == len(kshape) + 1 and cbs is not None and cbs < nc:
         weights["shape"] = kshape
         weights["re"] = weights["re"][:prod(kshape)]
-    return {"op": "Sense", "mps": _arr_spec(draw, [nc] + list(s), dt), "coord": coord, "weights": weights, "coil_batch_size": cbs}
+    sp = {"op": "Sense", "mps": _arr_spec(draw, [nc] + list(s), dt), "coord": coord, "weights": weights, "coil_batch_size": cbs}
+    # further documented options of the factory (each drawn rarely; absent keys mean the default)
+    opt = draw(st.sampled_from(["none", "none", "none", "comm", "transp", "tseg", "ishape"]))
+    if opt == "comm":
+        sp["comm"] = True
+    elif opt == "ishape":
+        sp["ishape"] = list(s)
+    elif opt == "transp" and coord is not None:
+        # transp_nufft=True composes NUFFT(-coord).H after the maps: the coordinate array must then have one
+        # point per image voxel (shape ishape + [ndim]); the output lives on the image grid
+        sp["coord"] = _coord(draw, s, list(s), ("in", "in", "out", "int"))
+        sp["transp_nufft"] = True
+        if weights is not None:
+            sp["weights"] = None
+    elif opt == "tseg" and coord is not None and len(s) == 2 and (cbs is None or cbs >= nc):
+        # time-segmented off-resonance model (2-D images, all coils at once: the batched construction ignores tseg);
+        # dt is a power of two so that int(len(coord)*dt/dt) == len(coord) exactly
+        sp["tseg"] = {"b0": {"k": "g", "shape": list(s), "dtype": "float64", "seed": draw(A.seeds)},
+                      "dt": draw(st.sampled_from([2.0 ** -8, 2.0 ** -6])), "lseg": draw(st.integers(1, 3)),
+                      "n_bins": draw(st.integers(2, 6))}
+    return sp
 
 
 LEAF_GENS = {
@@ -948,6 +995,7 @@ LEAF_GENS = {
     "ConvolveData": (g_convdata, lambda s: True),
     "ConvolveFilter": (g_convfilter, lambda s: len(s) <= 5),
     "FiniteDifference": (g_findiff, lambda s: True),
+    "DeviceComm": (g_device_comm, lambda s: True),
     "Sense": (g_sense, lambda s: 2 <= len(s) <= 3),
 }
 # classes parameterised by their OUTPUT shape are reached as .H of the partner
@@ -1226,6 +1274,8 @@ def st_mri(draw):
         if kind == "ConvSense":
             sp = {"op": "ConvSense", "img_ker_shape": big, "mps_ker": _arr_spec(draw, [nc] + small, dt),
                   "coord": coord, "weights": weights, "grd_shape": grd}
+            if draw(st.integers(0, 3)) == 0:
+                sp["comm"] = True
         else:
             sp = {"op": "ConvImage", "mps_ker_shape": [nc] + small, "img_ker": _arr_spec(draw, big, dt),
                   "coord": coord, "weights": weights, "grd_shape": grd}
